@@ -100,24 +100,25 @@ def normSegs (s : Point) (closed : Bool) (segs : List Seg) : List Seg :=
   | some (.l p) => if closed = true ∧ segs.length ≥ 2 ∧ p = s then segs.dropLast else segs
   | _ => segs
 
+/-- Class and points of a sub-path in device space: start point `s`, normalised segments `ns`.
+line = one straight segment; rectangle = closed axis-aligned quadrilateral; otherwise curve. -/
+def kindPts (s : Point) (ns : List Seg) (closed : Bool) : Kind × List Point :=
+  let ends := ns.map Seg.endPt
+  match ns.all Seg.isLine, ends, closed with
+  | true, [e], _ => (.line, [s, e])
+  | true, [p1, p2, p3], true =>
+    if axisAligned s p1 p2 p3 = true then (.rect, [s, p1, p2, p3]) else (.curve, [s, p1, p2, p3, s])
+  | true, [p1, p2, p3, p4], false =>
+    if p4 = s ∧ axisAligned s p1 p2 p3 = true then (.rect, [s, p1, p2, p3]) else (.curve, [s, p1, p2, p3, p4])
+  | _, _, _ => (.curve, s :: ends ++ (if closed then [s] else []))
+
 /-- The one shape of a painted sub-path with at least one segment (`none` when it has no segment). -/
 def shapeOf (g : SGState) (stroke fill evenodd : Bool) (sp : SubPath) : Option Shape :=
   if sp.segs.isEmpty then none else
   let f := apply_matrix_pt g.ctm
   let s := f sp.start
-  let segs := sp.segs.map (Seg.map f)
-  let ns := normSegs s sp.closed segs
-  let ends := ns.map Seg.endPt
-  let straight := ns.all Seg.isLine
-  let (kind, pts) : Kind × List Point :=
-    match straight, ends, sp.closed with
-    | true, [e], _ => (.line, [s, e])
-    | true, [p1, p2, p3], true =>
-      if axisAligned s p1 p2 p3 then (.rect, [s, p1, p2, p3]) else (.curve, [s, p1, p2, p3, s])
-    | true, [p1, p2, p3, p4], false =>
-      if p4 = s ∧ axisAligned s p1 p2 p3 = true then (.rect, [s, p1, p2, p3]) else (.curve, [s, p1, p2, p3, p4])
-    | _, _, _ => (.curve, s :: ends ++ (if sp.closed then [s] else []))
-  some { kind := kind, pts := pts, path := pathOf f sp, bbox := hull pts, linewidth := g.linewidth,
+  let kp := kindPts s (normSegs s sp.closed (sp.segs.map (Seg.map f))) sp.closed
+  some { kind := kp.1, pts := kp.2, path := pathOf f sp, bbox := hull kp.2, linewidth := g.linewidth,
          stroke := stroke, fill := fill, evenodd := evenodd, scolor := g.scolor, ncolor := g.ncolor,
          dash := g.dash.map (fun d => (Operand.arr d.1, Operand.num d.2)) }
 
